@@ -6,6 +6,7 @@
 #include "vf/refhash.hpp"
 #include <bloom_filter.hpp>
 #include <sstream>
+#include <cstring>
 #include <memory>
 
 using namespace datasketches;
@@ -288,11 +289,14 @@ static void fpp_case(Rng& r) {
 
 // A legal filter of 2^32 bits or more (512 MB): capacities and bit indices no longer fit 32 bits.  The model is
 // sparse (set of expected bit positions from the reference hash), the views are made one at a time to bound memory.
-static void giant_filter_case(Rng& r) {
-  const uint64_t nbits = (uint64_t(1) << 32) + 64 * uint64_t(r.range(1 << 20, 1 << 24));   // 2^32 + 2^26 .. 2^32 + 2^30 bits (up to 640 MB)
+// mid = true: the same sparse-model case at 64 KB .. 320 KB of bit array (sizes that are not a multiple of the 64 KB
+// chunk the stream reader uses), with the stream-restored view added: a reader that loses a partial chunk shows here.
+static void giant_filter_case(Rng& r, bool mid = false) {
+  const uint64_t nbits = mid ? 64 * (r.chance(0.3) ? 8192 * uint64_t(r.range(1, 4)) + uint64_t(r.range(1, 3)) : uint64_t(r.range(8193, 40000)))
+                             : (uint64_t(1) << 32) + 64 * uint64_t(r.range(1 << 20, 1 << 24));   // 2^32 + 2^26 .. 2^32 + 2^30 bits (up to 640 MB)
   const uint16_t nh = uint16_t(r.range(2, 5));
   const uint64_t seed = r.next();
-  const std::string ctx = "giant nbits=" + std::to_string(nbits) + " nh=" + std::to_string(nh) + " seed=" + std::to_string(seed);
+  const std::string ctx = std::string(mid ? "mid" : "giant") + " nbits=" + std::to_string(nbits) + " nh=" + std::to_string(nh) + " seed=" + std::to_string(seed);
   describe(ctx);
   std::set<uint64_t> pos;
   auto positions = [&](uint64_t item, std::vector<uint64_t>& out) {
@@ -317,7 +321,7 @@ static void giant_filter_case(Rng& r) {
   }
   if (above32) count("giant_bit_index_above_2p32");
   auto check = [&](const bloom_filter& v, const std::string& view) {
-    const std::string K = "bloom|giant|" + view + "|";
+    const std::string K = std::string(mid ? "bloom|mid|" : "bloom|giant|") + view + "|";
     VF_CHECK(v.get_capacity() == nbits && v.get_num_hashes() == nh && v.get_seed() == seed, K + "config", ctx + " capacity=" + std::to_string(v.get_capacity()));
     VF_CHECK(!v.is_empty(), K + "is_empty", ctx);
     for (auto it : items) { checked(); if (!v.query(it)) { fail(K + "false-negative", ctx + " item=" + std::to_string(it)); break; } }
@@ -326,6 +330,20 @@ static void giant_filter_case(Rng& r) {
   check(*f, "live");
   VF_CHECK(f->get_bits_used() == pos.size(), "bloom|giant|live|bits_used", ctx + " got=" + std::to_string(f->get_bits_used()) + " model=" + std::to_string(pos.size()));
   auto img = f->serialize();
+  if (mid) {
+    std::stringstream ss; f->serialize(ss);
+    const std::string sb = ss.str();
+    VF_CHECK(sb.size() == img.size() && std::memcmp(sb.data(), img.data(), img.size()) == 0, "bloom|mid|stream-image|differs-from-bytes-image", ctx);
+    std::stringstream s2(sb + "TAIL");
+    bloom_filter d = bloom_filter::deserialize(s2);
+    check(d, "deserialized-stream");
+    VF_CHECK(d.get_bits_used() == pos.size(), "bloom|mid|deserialized-stream|bits_used", ctx + " got=" + std::to_string(d.get_bits_used()));
+    auto img2 = d.serialize();
+    VF_CHECK(img2.size() == img.size() && std::memcmp(img2.data(), img.data(), img.size()) == 0, "bloom|mid|deserialized-stream|image-differs-from-original", ctx);
+    VF_CHECK(uint64_t(s2.tellg()) == sb.size(), "bloom|mid|deserialized-stream|stream-position", ctx + " pos=" + std::to_string((long long)s2.tellg()));
+    count("mid_filter_stream_restores");
+    if ((nbits / 8) % 65536) count("mid_filter_partial_last_chunk");
+  }
   f.reset();
   const uint64_t want_len = 32 + nbits / 8;
   VF_CHECK(img.size() == want_len, "bloom|giant|image|image-size", ctx + " len=" + std::to_string(img.size()));
@@ -347,7 +365,7 @@ static void giant_filter_case(Rng& r) {
     VF_CHECK(all, "bloom|giant|writable-wrap-of-image|update-not-in-caller-memory", ctx);
   }
   { bloom_filter d = bloom_filter::deserialize(img.data(), img.size()); check(d, "deserialized-bytes"); VF_CHECK(d.get_bits_used() == pos.size(), "bloom|giant|deserialized-bytes|bits_used", ctx + " got=" + std::to_string(d.get_bits_used())); }
-  count("giant_filter_cases");
+  count(mid ? "mid_filter_cases" : "giant_filter_cases");
   sig(mix64(nbits, pos.size()));
 }
 
@@ -357,6 +375,7 @@ void run_case(uint64_t idx, Rng& r) { try { run_body(idx, r); } catch (const Cas
 static void run_body(uint64_t idx, Rng& r) {
   if (idx % 40 == 13) { fpp_case(r); return; }
   if (idx % 2000 == 777) { giant_filter_case(r); return; }
+  if (idx % 50 == 27) { giant_filter_case(r, true); return; }
   const bool T = G().thorough();
   const uint64_t nbits = r.chance(0.3) ? uint64_t(r.range(1, 200)) : (r.chance(0.5) ? 64 * uint64_t(r.range(1, 64)) : uint64_t(r.range(65, T ? 60000 : 9000)));
   const uint16_t nh = uint16_t(r.chance(0.04) ? r.pick({255, 256, 257, 300, 512, 1000}) : (r.chance(0.8) ? r.range(1, 7) : r.range(8, 20)));   // num_hashes is a 16-bit parameter
